@@ -840,9 +840,16 @@ impl<'a> Exec<'a> {
                     (Some(a), Some(b)) => (a.native.clone(), b.native.clone()),
                     _ => return self.skip(i, op),
                 };
-                let kind = self.slots[seed_from].item.kind;
+                // the spliced setup holds its (raw) key directly, whatever the sources were
+                let kind = Kind::Setup;
+                let mut sk = b[lens.nh..lens.nh + lens.nsk].to_vec();
+                if self.slots[key_from].item.kind == Kind::SetupHsm && self.w.knobs.hsm_handle {
+                    for (i, x) in sk.iter_mut().enumerate() {
+                        *x ^= 0x5a ^ (i as u8).wrapping_mul(29);
+                    }
+                }
                 let mut bytes = a[..lens.nh].to_vec();
-                bytes.extend_from_slice(&b[lens.nh..lens.nh + lens.nsk]);
+                bytes.extend_from_slice(&sk);
                 bytes.extend_from_slice(&a[lens.nh + lens.nsk..]);
                 Stats::bump(&mut self.stats.faults, "static_key_swapped_under_same_seed");
                 let res = self.s.decode(kind, Codec::Native, &bytes);
